@@ -40,6 +40,7 @@ inductive Val where
   | fillGen                          -- value under `_DJC_FILL_GEN` (the list itself lives in the world)
   | isFilled (names : List Str)      -- `component_vars` (its `.is_filled` is the same object here)
   | injected (kvs : List (Str × Val)) -- the `DepInject` namedtuple `inject()` returns
+  | idBox (id : Nat)                 -- `Component.id` wrapped in an opaque object: prints, is truthy, iterates over nothing
   | slotRef (nodes : List Node) (ctx : Option (List (List (Str × Val))))
 deriving Repr, Inhabited
 
@@ -149,6 +150,8 @@ mutual
     | (k, v) :: kvs => (quoteEsc ++ k ++ quoteEsc ++ ": ".toList ++ reprEsc v) :: reprEscKvs kvs
 end
 
+def natStr (n : Nat) : Str := (toString n).toList
+
 /-- what `{{ v }}` prints -/
 def pyStr : Val → Str
   | .str s => s
@@ -157,6 +160,7 @@ def pyStr : Val → Str
   | .none => "None".toList
   | .list xs => '[' :: joinWith ", ".toList (reprEscList xs) ++ [']']
   | .dict kvs => '{' :: joinWith ", ".toList (reprEscKvs kvs) ++ ['}']
+  | .idBox id => 'I' :: 'D' :: natStr id ++ ['Z']
   | .injected kvs => "DepInject(".toList ++ joinWith ", ".toList (kvs.map (fun kv => kv.1 ++ ['='] ++ reprEsc kv.2)) ++ [')']
   | _ => "?".toList
 
@@ -168,7 +172,6 @@ def iterVals : Val → List Val
   | .injected kvs => kvs.map (fun kv => kv.2)      -- a namedtuple iterates over its values
   | _ => []
 
-def natStr (n : Nat) : Str := (toString n).toList
 
 /-- the `forloop` dict (the keys the generated templates can observe) and the loop variable -/
 def forLayer (ctx : Ctx) (x : Str) (i : Nat) (item : Val) : Layer :=
